@@ -167,6 +167,11 @@ Theorem C14_atomic_sections_every_instant :
     forall ths, Forall (Forall Q) ths -> forall sched, P (conc_state step sched s0 ths).
 Proof. exact conc_every_instant. Qed.
 
+(** "every instant": the history of a longer schedule extends the history of each of its prefixes *)
+Theorem C14_instants_are_prefixes : forall (S A : Type) (step : S -> A -> S) s1 s2 s0 (ths : list (list A)),
+  exists l2, conc_history step (s1 ++ s2) s0 ths = conc_history step s1 s0 ths ++ l2.
+Proof. exact conc_prefix_state. Qed.
+
 (** immunity cache, coarse view (every operation of Immunity/Cache.v atomic): C13_bound at every instant *)
 Theorem C14_bounds_every_instant : forall cfg ths sched,
   cfg_valid cfg = true -> Forall (Forall op_ok) ths ->
@@ -261,6 +266,7 @@ Print Assumptions C14_adds_commute_lists.
 Print Assumptions C14_adds_commute.
 Print Assumptions C14_atomic_sections.
 Print Assumptions C14_atomic_sections_every_instant.
+Print Assumptions C14_instants_are_prefixes.
 Print Assumptions C14_bounds_every_instant.
 Print Assumptions C14_immune_survive.
 Print Assumptions C14_immune_survive_added_later.
